@@ -160,6 +160,7 @@ is32(int t)
 
 /* ---- part A: value round trip ---- */
 static unsigned char *encblk[2]; /* exact blocks of 5 and 10 octets */
+static unsigned char *blk2[24];  /* exact blocks for encodings at an offset, carved on demand */
 static unsigned char *decblk[12]; /* exact blocks of 1..11 octets */
 
 static void
@@ -202,6 +203,20 @@ roundtrip(int t, uint64_t v)
     if (rc != rn || got != v || b.offset != (size_t)rn)
         vh_fail("decode-buffer", key, "octets=%s rc=%d value=%016" PRIx64 " offset=%zu expected value %016" PRIx64,
                 vh_hex(ref, (size_t)rn), rc, got, b.offset, v);
+    /* the same encoding behind already consumed octets and in front of further data: offset k, used beyond it */
+    {
+        size_t lead = (size_t)(v % 5), tail = (size_t)((v >> 3) % 3), tot = lead + (size_t)rn + tail;
+        if (blk2[tot] == NULL)
+            blk2[tot] = vh_arena(tot);
+        memset(blk2[tot], 0xff, tot); /* continuation bits everywhere around it */
+        memcpy(blk2[tot] + lead, ref, (size_t)rn);
+        byte_buffer_set(&b, blk2[tot], tot, tot, lead);
+        got = 0;
+        rc = api_decode(t, &b, &got);
+        if (rc != rn || got != v || b.offset != lead + (size_t)rn || b.used != tot)
+            vh_fail("decode-buffer-at-offset", key, "octets=%s at offset %zu of %zu: rc=%d value=%016" PRIx64 " offset=%zu",
+                    vh_hex(ref, (size_t)rn), lead, tot, rc, got, b.offset);
+    }
     struct osrc os = { .p = d, .n = (size_t)rn, .pos = 0 };
     Source src;
     octet_source_init(&src, osrc_get, &os);
@@ -219,6 +234,7 @@ setup_blocks(void)
     encblk[1] = vh_arena(10);
     for (int i = 0; i <= 11; i++)
         decblk[i] = vh_arena((size_t)i);
+    memset(blk2, 0, sizeof blk2);
 }
 
 static void
